@@ -825,7 +825,18 @@ impl<'a, F: EvalComptimeFn> InferenceCtx<'a, F> {
                         [self.world_bodies.global_body(entry_point)]
                     {
                         hir::Expr::Lambda(lambda) => &self.world_bodies[entry_point.file][lambda],
-                        _ => todo!("entry point doesn't have lambda body"),
+                        // the entry point has a function type, but it isn't a lambda itself
+                        // (e.g. an alias of another function, or a broken expression)
+                        _ => {
+                            self.diagnostics.push(TyDiagnostic {
+                                kind: TyDiagnosticKind::EntryNotFunction,
+                                file: entry_point.file,
+                                expr: None,
+                                range: range.whole,
+                                help: None,
+                            });
+                            break 'entry;
+                        }
                     };
 
                     if !param_tys.is_empty() {
